@@ -11,10 +11,20 @@ namespace W2c2Verif
 @[simp] theorem CVal.truthy_ofBool (b : Bool) : (CVal.ofBool b).truthy = b := by
   cases b <;> simp [CVal.ofBool, CVal.truthy]
 
+@[simp] theorem CVal.fromFloat_f32 (fmt b) : CVal.fromFloat .f32 fmt b = .val (.f32 (BitVec.ofNat 32 (SF.convert fmt SF.f32 b))) := rfl
+@[simp] theorem CVal.fromFloat_f64 (fmt b) : CVal.fromFloat .f64 fmt b = .val (.f64 (BitVec.ofNat 64 (SF.convert fmt SF.f64 b))) := rfl
+
+@[simp] theorem CVal.castInt_u32_ofBool (b : Bool) : (CVal.ofBool b).castInt .u32 = .val (.u32 (if b then 1#32 else 0#32)) := by
+  cases b <;> rfl
+@[simp] theorem CVal.castInt_i32_ofBool (b : Bool) : (CVal.ofBool b).castInt .i32 = .val (.i32 (if b then 1#32 else 0#32)) := by
+  cases b <;> rfl
+@[simp] theorem CVal.castInt_u64_ofBool (b : Bool) : (CVal.ofBool b).castInt .u64 = .val (.u64 (if b then 1#64 else 0#64)) := by
+  cases b <;> rfl
+
 /-- unfold the evaluator on a concrete AST (distributing continuations over `if`) -/
 macro "csem_eval" : tactic => `(tactic|
   simp +decide [CMacro.call, CFunc.call, CExpr.eval, CExpr.typeOf, CStmt.exec, bindParams, Env.get, Env.set, List.zip,
-        CVal.castInt, CVal.binop, CVal.unop, CVal.shift, CVal.withAmt, CPrim.amtOk, CTy.common, CTy.promote, CVal.ty,
+        CVal.fromNat, CVal.fromInt, CVal.binop, CVal.unop, CVal.shift, CVal.withAmt, CPrim.amtOk, CTy.common, CTy.promote, CVal.ty,
         CPrim.cmpS, CPrim.cmpU, CPrim.arithS, CPrim.arithU, CPrim.shiftU, CPrim.shiftS, BinOp.isCmp,
         Out.map', builtin1, builtin2, signbitSem, noDefs, defsOfMacros, defsOfFuncs, Out.ite_bind,
         lookupAssoc, -BitVec.shiftLeft_eq', -BitVec.ushiftRight_eq', -BitVec.sshiftRight_eq'])
@@ -24,7 +34,7 @@ macro "csem_eval" : tactic => `(tactic|
 macro "csem_step" : tactic => `(tactic|
   simp +decide [CMacro.call, CFunc.call, CExpr.eval, CExpr.typeOf, CStmt.exec_seq, CStmt.exec_skip, CStmt.exec_decl,
         CStmt.exec_assign, CStmt.exec_opAssign, CStmt.exec_ifThen, CStmt.exec_ret, bindParams, Env.get, Env.set, List.zip,
-        CVal.castInt, CVal.binop, CVal.unop, CVal.shift, CVal.withAmt, CPrim.amtOk, CTy.common, CTy.promote, CVal.ty,
+        CVal.fromNat, CVal.fromInt, CVal.binop, CVal.unop, CVal.shift, CVal.withAmt, CPrim.amtOk, CTy.common, CTy.promote, CVal.ty,
         CPrim.cmpS, CPrim.cmpU, CPrim.arithS, CPrim.arithU, CPrim.shiftU, CPrim.shiftS, BinOp.isCmp,
         Out.map', builtin1, builtin2, signbitSem, noDefs, defsOfMacros, defsOfFuncs,
         lookupAssoc, -BitVec.shiftLeft_eq', -BitVec.ushiftRight_eq', -BitVec.sshiftRight_eq', *])
